@@ -8,6 +8,7 @@ The class wrappers are judged at their own boundary as well.
 """
 import math
 
+import itertools
 import numpy as np
 
 from .. import core, gen, ref
@@ -295,11 +296,22 @@ def run_exp(ctx, p):
 def run_log(ctx, p):
     """T = reference exp(S) rounded; log contracts judge trlog/trlog2; the runner adds log(exp(S)) = S"""
     import spatialmath.base as base
-    dim, kind, S = p['dim'], p['kind'], np.asarray(p['S'], dtype=np.float64)
+    dim, kind = p['dim'], p['kind']
+    f = base.trlog if dim == 3 else base.trlog2
+    if 'T' in p:
+        # a matrix given as such (exactly representable rotations: quarter, third and half turns of the cube): the contracts hooked on
+        # trlog / trlog2 judge exp(log(T)) = T; there is no S to compare with
+        T = np.asarray(p['T'], dtype=np.float64)
+        for twist in (True, False):
+            try:
+                f(T, twist=twist)
+            except Exception:
+                pass
+        return
+    S = np.asarray(p['S'], dtype=np.float64)
     T = ref.f64(ref_exp(kind, S))
     if p.get('layout'):
         T = gen.layout(T, p['layout'])
-    f = base.trlog if dim == 3 else base.trlog2
     nso, nse = (3, 6) if dim == 3 else (1, 3)
     w = S if kind == 'so' else S[nse - nso:]
     th = float(np.linalg.norm(w))
@@ -328,14 +340,20 @@ def run_log(ctx, p):
 def run_class(ctx, p):
     """class wrappers: Exp, log, pose<->twist conversion, Twist.exp / SE3 / SE2"""
     import spatialmath as sm
-    dim, kind, S = p['dim'], p['kind'], np.asarray(p['S'], dtype=np.float64)
+    dim, kind = p['dim'], p['kind']
     which = p['which']
     C = {(3, 'so'): sm.SO3, (3, 'se'): sm.SE3, (2, 'so'): sm.SO2, (2, 'se'): sm.SE2}[(dim, kind)]
     api = '%s.%s' % (C.__name__, which)
     nso, nse = (3, 6) if dim == 3 else (1, 3)
-    w = S if kind == 'so' else S[nse - nso:]
-    th = float(np.linalg.norm(w))
-    T = ref.f64(ref_exp(kind, S))
+    if 'T' in p:           # (log / Twist of a matrix given as such)
+        T = np.asarray(p['T'], dtype=np.float64)
+        S = np.zeros(nso if kind == 'so' else nse)
+        th = float(ref.rot_angle(T[:dim, :dim]))
+    else:
+        S = np.asarray(p['S'], dtype=np.float64)
+        w = S if kind == 'so' else S[nse - nso:]
+        th = float(np.linalg.norm(w))
+        T = ref.f64(ref_exp(kind, S))
     sig = dict(api=api, algebra=kind)
     try:
         if which == 'Exp':
@@ -442,8 +460,43 @@ def algebra(rng, dim, kind, many=False):
     return np.r_[v, w]
 
 
+def cube_rotations():
+    """the 24 rotations of the cube as exact matrices (trace exactly 3, 1, 0 or -1: identity, quarter, third and half turns)"""
+    out = []
+    for perm in itertools.permutations(range(3)):
+        for sg in itertools.product((1.0, -1.0), repeat=3):
+            P = np.eye(3)[list(perm)] * np.array(sg)[:, None] + 0.0
+            if abs(np.linalg.det(P) - 1) < 1e-9:
+                out.append(P)
+    return out
+
+
 def run(ctx):
     rng = ctx.rng
+    # exactly representable rotations, alone and with a translation, through every log entry point
+    k = 0
+    for rep_ in range(ctx.scale(1, 20)):
+        for R in cube_rotations():
+            for kind in ('so', 'se'):
+                k += 1
+                if not ctx.mine(k):
+                    continue
+                T = R if kind == 'so' else ref.f64(ref.rt2tr(R, gen.transl(rng, 3, hi=1e3) if rep_ or rng.random() < 0.5 else np.zeros(3)))
+                drive(RUNNERS, ctx, 'log', dict(dim=3, kind=kind, T=T))
+                drive(RUNNERS, ctx, 'class', dict(dim=3, kind=kind, T=T, which='log'))
+                if kind == 'se':
+                    drive(RUNNERS, ctx, 'class', dict(dim=3, kind=kind, T=T, which='Twist'))
+        for c_, s_ in ((1.0, 0.0), (0.0, 1.0), (-1.0, 0.0), (0.0, -1.0)):
+            for kind in ('so', 'se'):
+                k += 1
+                if not ctx.mine(k):
+                    continue
+                R = np.array([[c_, -s_], [s_, c_]]) + 0.0
+                T = R if kind == 'so' else ref.f64(ref.rt2tr(R, gen.transl(rng, 2, hi=1e3)))
+                drive(RUNNERS, ctx, 'log', dict(dim=2, kind=kind, T=T))
+                drive(RUNNERS, ctx, 'class', dict(dim=2, kind=kind, T=T, which='log'))
+                if kind == 'se':
+                    drive(RUNNERS, ctx, 'class', dict(dim=2, kind=kind, T=T, which='Twist'))
     for _ in range(ctx.scale(9000, 300000)):
         dim = int(rng.integers(2, 4))
         kind = 'so' if rng.random() < 0.35 else 'se'
